@@ -2,7 +2,7 @@
 from trkgen import *
 
 ID = "C12"
-THEOREM_MODULES = ["SimVerif.Props.C12", "SimVerif.Tie.VMetric", "SimVerif.Tie.Voting", "SimVerif.Tie.VisVoting", "SimVerif.Props.C12s", "SimVerif.Tie.OptimizeV"]
+THEOREM_MODULES = ["SimVerif.Props.C12", "SimVerif.Tie.VMetric", "SimVerif.Tie.Voting", "SimVerif.Tie.VisVoting", "SimVerif.Props.C12s", "SimVerif.Tie.OptimizeV", "SimVerif.Tie.VoteParams"]
 THEOREM_MODULE = "SimVerif.Props.C12"
 NONTRIVIAL_FLAGS = {"appearance-votes", "track-below-minimal-length", "feature-not-usable", "all-features-over-threshold", "visual-attachment", "appearance-contest-lost", "appearance-and-positional", "competition", "feature-not-collectable", "gallery-full"}
 RULE = ("VisualSORT and BatchVisualSORT histories with crossing objects, look-alike objects (embeddings within the visual threshold of each other), missing and low-quality features, occlusions and clutter, over option combinations "
